@@ -7,7 +7,8 @@ CONSTANTS
   BuiltIn <- MCBuiltIn
   BiName = "payFees"
   Class = {"ok", "fail", "stale", "sc"}
-  MaxPool = 4
+  MaxPool = 3
   FilterBuiltins = FALSE
+VIEW View
 INVARIANTS NoDuplicate ConsecutiveNonces CostLimit BuiltinsOnce VerifierAgrees
 CHECK_DEADLOCK FALSE
